@@ -133,9 +133,49 @@ def checkWithDefault (d : Arg) (x t0 : V) : List (Cond × Log) → D
 def checkNoDefault (t0 : V) (cs : List (Cond × Log)) : D :=
   (if cs.all (fun c => c.1 == Cond.holds) then .pass t0 else .reject .check, cs.flatMap (·.2))
 
+/-! #### what `Check(spec, **kw)` is, from the documentation of its arguments — written
+   independently of the model's `checkInit` (which transcribes `Check.__init__` statement by
+   statement); `checkObjRef_eq` proves that the two agree -/
+
+def omList {α} : Option (OneOrMany α) → List α
+  | some (.one a) => [a]
+  | some (.many l) => l
+  | none => []
+
+def omEmpty {α} : Option (OneOrMany α) → Bool
+  | some (.many []) => true
+  | _ => false
+
+/-- the argument errors, in the order the arguments are examined: `instance_of` / `type` given
+    as an empty sequence (ValueError), `equal_to` together with `one_of` (TypeError), an empty
+    `one_of` (ValueError) -/
+def checkArgErrors (a : CheckArgs) : List (Bool × String) :=
+  [(omEmpty a.instanceOf, "ValueError"), (omEmpty a.type_, "ValueError"),
+   (a.equalTo.isSome && a.oneOf.isSome, "TypeError"),
+   ((match a.oneOf with | some [] => true | _ => false), "ValueError")]
+
+/-- the Check the arguments describe: `type` / `instance_of` a type or a sequence of types,
+    `equal_to=v` the one-element `one_of`, `validate` a callable or a sequence of callables —
+    and the plain truthiness test exactly when no condition at all was given -/
+def checkObjRef (a : CheckArgs) : Except String CheckObj :=
+  match (checkArgErrors a).find? (·.1) with
+  | some e => .error e.2
+  | none => .ok
+    { spec := a.spec
+      types := omList a.type_
+      vals := (match a.equalTo with | some v => [v] | none => a.oneOf.getD [])
+      validators :=
+        (match a.validate with
+         | some v => v.toList
+         | none =>
+           if a.type_.isNone && a.instanceOf.isNone && a.equalTo.isNone && a.oneOf.isNone then [builtinTruthy]
+           else [])
+      instanceOf := omList a.instanceOf
+      default := a.default }
+
 def checkRef (ct : ClassTable) (a : CheckArgs) (t0 : V) : D :=
-  match checkInit a with
-  | .error e => (.fault e.cls, [])
+  match checkObjRef a with
+  | .error e => (.fault e, [])
   | .ok o =>
     let go := fun (x : V) =>
       match o.default with
@@ -251,25 +291,25 @@ def denote (ct : ClassTable) : Spec → V → D
      | .ret v => if truthy v then (.pass t, [id]) else (.reject .comb, [id])
      | .raise _ => (.reject .comb, [id]))
   | .list alts, t =>
-    (match t with
+    (match t.unsub with
      | .list items => finish (fun vs => .pass (.list vs)) (allItems (denAlt ct alts) items)
      | _ => vreject .typ)
   | .set alts, t =>
-    (match t with
+    (match t.unsub with
      | .set items => finish (mkSetRef false) (allItems (denAlt ct alts) items)
      | _ => vreject .typ)
   | .fset alts, t =>
-    (match t with
+    (match t.unsub with
      | .fset items => finish (mkSetRef true) (allItems (denAlt ct alts) items)
      | _ => vreject .typ)
   | .tuple ps, t =>
-    (match t with
+    (match t.unsub with
      | .tuple items =>
        if items.length != ps.length then vreject .comb
        else finish (fun vs => .pass (.tuple vs)) (denZip ct ps items)
      | _ => vreject .typ)
   | .dict es, t =>
-    (match t with
+    (match t.unsub with
      | .dict items =>
        let r := dictRef (denKey ct es 0) items [] []
        (match r.1 with
